@@ -210,6 +210,10 @@ def angle_interpolation(P, rep, rule="EXPR.angle"):
         if got is None:
             ok = False
             continue
+        if any(getattr(e.func, "__name__", "") == "ite" for e in got.atoms(sp.Function)):
+            rep.unknown(rule, "interpolate_angle_across_zero, case %s: a condition of the function is not one this rule can decide (%s)" % (case, str(got)[:80]))
+            ok = False
+            continue
         # got = lin - 2pi*floor(lin/(2pi)) : compare after replacing floor(...) by a symbol
         K = sp.Symbol("K")
         g2 = got.replace(lambda e: e.func.__name__ == "floor", lambda e: K)
@@ -334,6 +338,10 @@ def plume_sections(P, rep, rule="PLUME.sections"):
                   ("rotation_angle",): sp.Symbol("R_back")},
         "above": {("plume_center",): sp.Symbol("C_front"), ("eccentricity",): sp.Symbol("E_front"), ("rotation_angle",): sp.Symbol("R_front")},
     }
+    if all(got[b_].get(k_) is None for b_, w_ in want.items() for k_ in w_):
+        # none of the assignments this rule follows exists any more (moved into a helper / struct?): cannot judge
+        rep.unknown(rule, "Plume::properties: the per-depth assignments of centre, axis, eccentricity and rotation are not in the form this rule reads")
+        return
     for bname, w in want.items():
         for key, expv in w.items():
             g = got[bname].get(key)
